@@ -14,7 +14,7 @@ REQUIRED = [
     "s2s_token_only_if", "s2s_defect_combination_rejected", "claims_cannot_override", "claims_cannot_override_today",
     "authorize_response_only_if", "code_token_only_if", "code_redeemed_at_most_once", "nonce_covers_window",
     "nonce_covers_window_today", "introspect_active_only_if_issued", "introspect_faithful",
-    "introspect_depends_on_token_store_only", "s2s_all_required_definitions_fulfilled_false",
+    "introspect_depends_on_token_store_only", "s2s_all_required_definitions_fulfilled_false", "plain_introspection_members",
     "fact_s2s_chain", "fact_code_token_chain", "fact_authorize_response_chain", "fact_introspect_chain",
     "fact_reserved_covers_fields", "fact_empty_vp_checked", "fact_nonce_ttl_covers_window", "fact_ttls",
     "fact_verifyvp_args", "fact_introspection_fields", "fact_access_token_init", "fact_introspection_init",
@@ -331,6 +331,15 @@ def run(ctx):
         "the in-memory session store is used (entry visible while now <= put time + ttl); per-operation atomicity only (races are C05)",
         "interpretation: maximum validity and unseen nonce are enforced in the vp_token-bearer grant only; in the authorization-code flow the nonce is "
         "server-issued, bound to the state and burned, and NO maximum validity is checked (visible in the theorem statements)",
+    ]
+    ctx.notes += [
+        "defects repaired: 637a39a (claims named cnf/aud/vps/presentation_definitions/presentation_submissions overrode introspection members), "
+        "375d6d0 (s2s nonce TTL 10 s < acceptance window 15 s: presentation replay; also confirmed on the real clock with TestVerifC02RealTime), "
+        "6c1cde3 (credential-less presentation reset the expected subject). Open: s2s grant fulfils one of two configured definitions.",
+        "not covered: the real verifier (VerifyVP is scripted; C01), JWT presentations get the JSON-LD window rule from the stub (wider than the real nbf/exp check), "
+        "the authorization-request leg (sessions are seeded into the real stores the way handleAuthorizeRequestFromHolder stores them), Redis/memcached session stores, "
+        "concurrent requests (C05), HTTP routing/binding of the generated server wrapper (handlers are called through the StrictServerInterface methods), "
+        "legacy v1 auth/services/oauth/authz_server.go (JWT-bearer grant of the n2n flow) is outside the model",
     ]
     if facts is None:
         return
